@@ -51,6 +51,20 @@ def mutate(rng, prob, kw, d):
         up0["regression.num_extra_steps"] = int(kw.get("npt", prob["n"] + 1)) + int(rng.integers(0, 2))
         d["regression"] = up0["regression.num_extra_steps"]
         d["user_params"] = dict(up0)
+    if prob["n"] >= 2 and not d.get("proj") and "npt" not in kw and rng.random() < 0.12:
+        # growing phase that adds SEVERAL directions per iteration, with a budget that ends inside or just after such a batch
+        # (each new point must get a row of its own: seeded change C04_9 wrote the whole batch into one row)
+        up0 = dict(up0)
+        up0["growing.ndirs_initial"] = int(rng.integers(1, prob["n"]))
+        up0["growing.num_new_dirns_each_iter"] = int(rng.integers(2, 4))
+        for k in ("regression.num_extra_steps", "regression.momentum_extra_steps"):
+            up0.pop(k, None)
+        kw["user_params"] = up0
+        kw["maxfun"] = int(up0["growing.ndirs_initial"] + 2 + rng.integers(0, 10))
+        d["maxfun"] = kw["maxfun"]
+        d["growing"] = up0["growing.ndirs_initial"]
+        d["growing_batch"] = up0["growing.num_new_dirns_each_iter"]
+        d["user_params"] = dict(up0)
     # the rare exits: two projections with x0 near an intersection, tight trust regions
     force = (not d.get("proj")) and ("bounds" not in kw) and kw.get("h") is None and rng.random() < 0.15
     if force or (d.get("proj") and rng.random() < 0.7):
